@@ -363,15 +363,25 @@ func (s *pState) render(cw *cwriter.Writer) (err error) {
 }
 
 func (s *pState) flush(cw *cwriter.Writer, height int, iter <-chan *Bar) error {
+	var err error
 	var popCount int
 	var rows []io.Reader
 
 	for b := range iter {
 		frame := <-b.frameCh
+		if err != nil {
+			// keep receiving frames after an error, otherwise bars which are
+			// still being rendered may block forever on width synchronization
+			for _, row := range frame.rows {
+				_, _ = io.Copy(io.Discard, row)
+			}
+			s.hm.push(b, false)
+			continue
+		}
 		if frame.err != nil {
-			close(s.iterDrop)
+			err = frame.err
 			b.cancel()
-			return frame.err // b.frameCh is buffered it's ok to return here
+			continue
 		}
 		var usedRows int
 		for i := len(frame.rows) - 1; i >= 0; i-- {
@@ -406,6 +416,11 @@ func (s *pState) flush(cw *cwriter.Writer, height int, iter <-chan *Bar) error {
 		default:
 			s.hm.push(b, false)
 		}
+	}
+
+	if err != nil {
+		close(s.iterDrop)
+		return err
 	}
 
 	for i := len(rows) - 1; i >= 0; i-- {
